@@ -223,9 +223,29 @@ structure Inv (s : State) : Prop extends Wf s where
   nodup : ∀ n, (bearers s.log n).Nodup
   alive_lt : ∀ o, s.alive o = true → o < s.nextObj
   comp_ne : ∀ o, s.comp o ≠ 0
+  /-- declarative reading of the specification -/
+  last : ∀ o n, o ∈ bearers s.log n ↔ (s.alive o = true ∧ lastName s.log o = some n)
+  unborn : ∀ o, s.nextObj ≤ o → lastName s.log o = none
+  alive_log : ∀ o, s.alive o = aliveIn s.log o
+
+theorem lastName_append (log : List Ev) (e : Ev) (o : ObjId) :
+    lastName (log ++ [e]) o = match e with
+      | .named p n => if p = o then some n else lastName log o
+      | _ => lastName log o := by
+  simp only [lastName, List.foldl_append, List.foldl_cons, List.foldl_nil]
+  cases e <;> rfl
+
+theorem aliveIn_append (log : List Ev) (e : Ev) (o : ObjId) :
+    aliveIn (log ++ [e]) o = match e with
+      | .spawned p => if p = o then true else aliveIn log o
+      | .destroyed p => if p = o then false else aliveIn log o
+      | _ => aliveIn log o := by
+  simp only [aliveIn, List.foldl_append, List.foldl_cons, List.foldl_nil]
+  cases e <;> rfl
 
 theorem init_inv : Inv init := by
-  refine ⟨⟨rfl, ?_, ?_, ?_⟩, ?_, ?_, ?_, ?_, ?_⟩ <;> simp [init, listOf, bearers, emptyName]
+  refine ⟨⟨rfl, ?_, ?_, ?_⟩, ?_, ?_, ?_, ?_, ?_, ?_, ?_, ?_⟩ <;>
+    simp [init, listOf, bearers, emptyName, lastName, aliveIn]
 
 theorem Wf.of_same {s s' : State} (w : Wf s) (h1 : s'.tbl = s.tbl) (h2 : s'.lists = s.lists)
     (h3 : s'.nextList = s.nextList) : Wf s' := by
@@ -239,14 +259,17 @@ theorem listOf_of_same {s s' : State} (h1 : s'.tbl = s.tbl) (h2 : s'.lists = s.l
     listOf s' n = listOf s n := by simp [listOf, h1, h2]
 
 theorem Inv.of_same {s s' : State} (i : Inv s) (h1 : s'.tbl = s.tbl) (h2 : s'.lists = s.lists)
-    (h3 : s'.nextList = s.nextList) (h4 : bearers s'.log = bearers s.log) (h5 : s'.alive = s.alive)
+    (h3 : s'.nextList = s.nextList) (h4 : s'.log = s.log) (h5 : s'.alive = s.alive)
     (h6 : s'.comp = s.comp) (h7 : s'.nextObj = s.nextObj) : Inv s' := by
-  refine ⟨i.toWf.of_same h1 h2 h3, ?_, ?_, ?_, ?_, ?_⟩
+  refine ⟨i.toWf.of_same h1 h2 h3, ?_, ?_, ?_, ?_, ?_, ?_, ?_, ?_⟩
   · intro n; rw [listOf_of_same h1 h2, h4]; exact i.refine n
   · rw [h4, h5, h6]; exact i.bearer
   · rw [h4]; exact i.nodup
   · rw [h5, h7]; exact i.alive_lt
   · rw [h6]; exact i.comp_ne
+  · rw [h4, h5]; exact i.last
+  · rw [h4, h7]; exact i.unborn
+  · rw [h4, h5]; exact i.alive_log
 
 theorem normName_ne (n : Name) : normName n ≠ 0 := by
   unfold normName
@@ -312,7 +335,7 @@ theorem setTargetName_inv {s : State} (i : Inv s) {o : ObjId} (ho : s.alive o = 
   have hb : ∀ m, bearers (setTargetName s o n).log m =
       if m = normName n then (bearers s.log m).filter (· ≠ o) ++ [o] else (bearers s.log m).filter (· ≠ o) := by
     intro m; rw [f4, bearers_append]; rfl
-  refine ⟨setTargetName_wf i.toWf o n, ?_, ?_, ?_, ?_, ?_⟩
+  refine ⟨setTargetName_wf i.toWf o n, ?_, ?_, ?_, ?_, ?_, ?_, ?_, ?_⟩
   · intro m
     rw [setTargetName_listOf i, hb]
     by_cases hm : m = normName n <;> simp [hm]
@@ -348,6 +371,34 @@ theorem setTargetName_inv {s : State} (i : Inv s) {o : ObjId} (ho : s.alive o = 
     by_cases hx : x = o
     · subst hx; rw [upd_same]; exact normName_ne n
     · rw [upd_other _ _ hx]; exact i.comp_ne x
+  · intro x m
+    rw [hb, f1, f4, lastName_append]
+    simp only
+    by_cases hx : o = x
+    · subst hx
+      simp only [if_true, Option.some.injEq]
+      by_cases hm : m = normName n
+      · simp [hm, ho]
+      · simp only [hm, if_false]
+        constructor
+        · intro h; exact absurd rfl (mem_filter_ne.mp h).2
+        · intro h; exact absurd h.2.symm hm
+    · simp only [hx, if_false]
+      have hx' : x ≠ o := Ne.symm hx
+      by_cases hm : m = normName n
+      · simp only [hm, if_true, List.mem_append, List.mem_singleton, hx', or_false]
+        rw [mem_filter_ne, ← hm, i.last x m]; simp [hx']
+      · simp only [hm, if_false]
+        rw [mem_filter_ne, i.last x m]; simp [hx']
+  · intro x hx
+    rw [f2] at hx
+    rw [f4, lastName_append]
+    have : o ≠ x := fun e => absurd (i.alive_lt o ho) (by rw [e]; exact Nat.not_lt.mpr hx)
+    simp only [this, if_false]
+    exact i.unborn x hx
+  · intro x
+    rw [f1, f4, aliveIn_append]
+    exact i.alive_log x
 
 /-! ### destruction -/
 
@@ -396,7 +447,7 @@ theorem destroy_inv {s : State} (i : Inv s) (o : ObjId) : Inv (destroy s o) := b
     intro m; rw [f4, bearers_append]; rfl
   have w : Wf (destroy s o) :=
     (nullRefs_wf (removeListener_wf i.toWf o (s.comp o)) o).of_same rfl rfl rfl
-  refine ⟨w, ?_, ?_, ?_, ?_, ?_⟩
+  refine ⟨w, ?_, ?_, ?_, ?_, ?_, ?_, ?_, ?_⟩
   · intro m; rw [destroy_listOf i, hb]
   · intro m x hx
     rw [hb] at hx
@@ -412,6 +463,23 @@ theorem destroy_inv {s : State} (i : Inv s) (o : ObjId) : Inv (destroy s o) := b
     · subst e; simp at hx
     · rw [upd_other _ _ e] at hx; exact i.alive_lt x hx
   · rw [f3]; exact i.comp_ne
+  · intro x m
+    rw [hb, f1, f4, lastName_append, mem_filter_ne, i.last x m]
+    simp only
+    by_cases hx : x = o
+    · subst hx; simp
+    · simp [upd_other _ _ hx, hx]
+  · intro x hx
+    rw [f2] at hx
+    rw [f4, lastName_append]
+    exact i.unborn x hx
+  · intro x
+    rw [f1, f4, aliveIn_append]
+    simp only
+    by_cases hx : x = o
+    · subst hx; simp
+    · have : o ≠ x := Ne.symm hx
+      simp [upd_other _ _ hx, this, i.alive_log x]
 
 theorem spawnObj_inv {s : State} (i : Inv s) : Inv (spawnObj s) := by
   have hb : bearers (spawnObj s).log = bearers s.log := by
@@ -419,7 +487,11 @@ theorem spawnObj_inv {s : State} (i : Inv s) : Inv (spawnObj s) := by
     rw [bearers_append]; rfl
   have hne : ∀ n x, x ∈ bearers s.log n → x ≠ s.nextObj := fun n x hx e =>
     absurd (i.alive_lt x (i.bearer n x hx).1) (by rw [e]; exact Nat.lt_irrefl _)
-  refine ⟨i.toWf.of_same rfl rfl rfl, ?_, ?_, ?_, ?_, ?_⟩
+  have hl : ∀ x, lastName (spawnObj s).log x = lastName s.log x := by
+    intro x
+    show lastName (s.log ++ [.spawned s.nextObj]) x = _
+    rw [lastName_append]
+  refine ⟨i.toWf.of_same rfl rfl rfl, ?_, ?_, ?_, ?_, ?_, ?_, ?_, ?_⟩
   · intro n; rw [hb]; exact i.refine n
   · intro n x hx
     rw [hb] at hx
@@ -437,6 +509,23 @@ theorem spawnObj_inv {s : State} (i : Inv s) : Inv (spawnObj s) := by
     by_cases e : x = s.nextObj
     · subst e; simp [spawnObj, emptyName]
     · simpa [spawnObj, upd_other _ _ e] using i.comp_ne x
+  · intro x m
+    rw [hb, hl, i.last x m]
+    by_cases e : x = s.nextObj
+    · subst e
+      simp [spawnObj, i.unborn s.nextObj (Nat.le_refl _)]
+    · simp [spawnObj, upd_other _ _ e]
+  · intro x hx
+    rw [hl]
+    exact i.unborn x (Nat.le_of_succ_le hx)
+  · intro x
+    show upd s.alive s.nextObj true x = aliveIn (s.log ++ [.spawned s.nextObj]) x
+    rw [aliveIn_append]
+    simp only
+    by_cases e : x = s.nextObj
+    · subst e; simp
+    · have : s.nextObj ≠ x := Ne.symm e
+      simp [upd_other _ _ e, this, i.alive_log x]
 
 /-! ### weak references held by script values never designate a destroyed object -/
 
@@ -547,7 +636,7 @@ theorem spawnObj_good {s : State} (g : Good s) : Good (spawnObj s) := by
   simp [spawnObj, upd_other _ _ this, ho]
 
 theorem Good.of_same {s s' : State} (g : Good s) (h1 : s'.tbl = s.tbl) (h2 : s'.lists = s.lists)
-    (h3 : s'.nextList = s.nextList) (h4 : bearers s'.log = bearers s.log) (h5 : s'.alive = s.alive)
+    (h3 : s'.nextList = s.nextList) (h4 : s'.log = s.log) (h5 : s'.alive = s.alive)
     (h6 : s'.comp = s.comp) (h7 : s'.nextObj = s.nextObj) (h8 : s'.vals = s.vals) : Good s' :=
   ⟨g.inv.of_same h1 h2 h3 h4 h5 h6 h7, by intro v; rw [h5, h8]; exact g.vals v⟩
 
@@ -570,8 +659,21 @@ theorem say_good {s : State} (g : Good s) (t : String) : Good (say s t) :=
 theorem sayId_good {s : State} (g : Good s) (tag : String) (r : WeakRef) : Good (sayId s tag r) := by
   unfold sayId; split <;> exact say_good g _
 
+theorem visited_inv {s : State} (i : Inv s) (o : ObjId) : Inv { s with log := s.log ++ [.visited o] } := by
+  have hb : bearers (s.log ++ [.visited o]) = bearers s.log := by rw [bearers_append]; rfl
+  have hl : ∀ x, lastName (s.log ++ [.visited o]) x = lastName s.log x := fun x => by rw [lastName_append]
+  have ha : ∀ x, aliveIn (s.log ++ [.visited o]) x = aliveIn s.log x := fun x => by rw [aliveIn_append]
+  refine ⟨i.toWf.of_same rfl rfl rfl, ?_, ?_, ?_, i.alive_lt, i.comp_ne, ?_, ?_, ?_⟩
+  · intro n; show listOf s n = _; rw [hb]; exact i.refine n
+  · show ∀ n x, x ∈ bearers (s.log ++ [.visited o]) n → _; rw [hb]; exact i.bearer
+  · show ∀ n, (bearers (s.log ++ [.visited o]) n).Nodup; rw [hb]; exact i.nodup
+  · intro x m; show x ∈ bearers (s.log ++ [.visited o]) m ↔ _ ∧ lastName (s.log ++ [.visited o]) x = _
+    rw [hb, hl]; exact i.last x m
+  · intro x hx; show lastName (s.log ++ [.visited o]) x = none; rw [hl]; exact i.unborn x hx
+  · intro x; show s.alive x = aliveIn (s.log ++ [.visited o]) x; rw [ha]; exact i.alive_log x
+
 theorem visited_good {s : State} (g : Good s) (o : ObjId) : Good { s with log := s.log ++ [.visited o] } :=
-  g.of_same rfl rfl rfl (by show bearers (s.log ++ [.visited o]) = _; rw [bearers_append]; rfl) rfl rfl rfl rfl
+  ⟨visited_inv g.inv o, g.vals⟩
 
 theorem foldl_sayId_good (rs : List WeakRef) {s : State} (g : Good s) :
     Good (rs.foldl (fun st r => sayId st "e" r) s) := by
